@@ -108,7 +108,7 @@ theorem Tree.eq_refl_aux : ∀ (n : Nat) (t : Tree), sizeOf t ≤ n → t.eq t =
     intro t hn
     have hkv : ∀ kvs : List (Str × Tree), 1 + sizeOf kvs ≤ n + 1 → subKV kvs kvs = true := by
       intro kvs hs
-      rw [subKV_iff]
+      rw [subKV_iffZ]
       intro p hp
       have h1 := List.sizeOf_lt_of_mem hp
       have h2 := sizeOf_snd_lt p
@@ -221,10 +221,10 @@ def kvRel (X Y : List (Str × Tree)) : Prop :=
   X.length = Y.length ∧ ∀ p ∈ X, ∃ q ∈ Y, p.1 = q.1 ∧ p.2.eq q.2 = true
 
 theorem dict_eq_iff (X Y : List (Str × Tree)) : (Tree.dict X).eq (Tree.dict Y) = true ↔ kvRel X Y := by
-  simp [Tree.eq, subKV_iff, kvRel]
+  simp [Tree.eq, subKV_iffZ, kvRel]
 
 theorem fdict_eq_iff (X Y : List (Str × Tree)) : (Tree.fdict X).eq (Tree.fdict Y) = true ↔ kvRel X Y := by
-  simp [Tree.eq, subKV_iff, kvRel]
+  simp [Tree.eq, subKV_iffZ, kvRel]
 
 theorem kvRel_sortKV (X Y : List (Str × Tree)) : kvRel (sortKV X) (sortKV Y) ↔ kvRel X Y := by
   simp only [kvRel, sortKV_length, mem_sortKV]
